@@ -25,10 +25,15 @@ def check(repo: Repo, R) -> None:
     fs = repo.func(F_GENERATORS, "Series")
     p = fs.node.args.args[0].arg
     defs = au.local_defs(fs.node)
+    # the module being built, by role: the local bound to a fresh h.Module()
+    mvs = [st.targets[0].id for st in au.stmts(fs.node) if isinstance(st, ast.Assign) and len(st.targets) == 1 and isinstance(st.targets[0], ast.Name) and ast.unparse(st.value) in ("h.Module()", "Module()")]
+    if len(mvs) != 1:
+        raise AnalysisError(f"idiom-unknown: the module built by {fs.site} is not a local bound to h.Module()")
+    M = mvs[0]
     # internal net
-    inets = pat.find(f"$I = m.add(h.Signal(name=$N, width={p}.nser - 1))", fs.node)
+    inets = pat.find(f"$I = {M}.add(h.Signal(name=$N, width={p}.nser - 1))", fs.node)
     if len(inets) != 1:
-        nets = pat.find("$I = m.add(h.Signal(*$_))", fs.node)
+        nets = pat.find(f"$I = {M}.add(h.Signal(*$_))", fs.node)
         got = ast.unparse(nets[0][0]) if nets else None
         R.bad(rule, key_of(fs, "internal-net"), fs.site, f"the internal series net is `{got}`; expected one signal of width nser - 1 added to the module", "adjacent units do not each get their own private joining net")
         return
@@ -36,9 +41,9 @@ def check(repo: Repo, R) -> None:
     R.ok(rule, key_of(fs, "internal-net"), fs.at(inets[0][0]), f"one internal net `{inet}` of width nser - 1, owned by the generated module")
     from . import shared
 
-    P_ = lambda e: shared.prov_text(fs.node, e, keep=("m",))  # `m` is the module being built: an object, not a value to substitute
+    P_ = lambda e: shared.prov_text(fs.node, e, keep=(M,))  # `m` is the module being built: an object, not a value to substitute
     # the unit array and its connection dict
-    arr = pat.find(f"m.add({p}.nser * {p}.unit(**$D), name=$N)", fs.node)
+    arr = pat.find(f"{M}.add({p}.nser * {p}.unit(**$D), name=$N)", fs.node)
     dvar = ast.unparse(arr[0][1]["D"]) if len(arr) == 1 else None
     # writes to the connection dict, in program order: (kind, key node, value node, statement)
     writes = []
@@ -78,7 +83,7 @@ def check(repo: Repo, R) -> None:
               "the chain is broken, reversed or closed on itself: unit k's second port is not unit k+1's first")
         return
     # ... which are the module's ports resolved from conns[0] and conns[1], in that order
-    RES = {0: (f"_seriesconn(m, {p}.conns[0])", f"_seriesconns(m, {p}.conns)[0]"), 1: (f"_seriesconn(m, {p}.conns[1])", f"_seriesconns(m, {p}.conns)[1]")}
+    RES = {0: (f"_seriesconn({M}, {p}.conns[0])", f"_seriesconns({M}, {p}.conns)[0]"), 1: (f"_seriesconn({M}, {p}.conns[1])", f"_seriesconns({M}, {p}.conns)[1]")}
     unpack = {}
     for st in au.stmts(fs.node):
         if isinstance(st, ast.Assign) and len(st.targets) == 1 and isinstance(st.targets[0], ast.Tuple) and len(st.targets[0].elts) == 2 and all(isinstance(x, ast.Name) for x in st.targets[0].elts):
@@ -104,7 +109,7 @@ def check(repo: Repo, R) -> None:
     # parallel ports: every module port that is not one of the two resolved series ports (by identity), wired by name
     par = byname = False
     for kind, k, v, st in comps:
-        if isinstance(v, ast.DictComp) and len(v.generators) == 1 and ast.unparse(v.generators[0].iter) == "io(m).values()" and isinstance(v.generators[0].target, ast.Name):
+        if isinstance(v, ast.DictComp) and len(v.generators) == 1 and ast.unparse(v.generators[0].iter) == f"io({M}).values()" and isinstance(v.generators[0].target, ast.Name):
             tv = v.generators[0].target.id
             byname = ast.unparse(v.key) == f"{tv}.name" and ast.unparse(v.value) == tv
             ifs = v.generators[0].ifs
@@ -114,7 +119,7 @@ def check(repo: Repo, R) -> None:
                     par = {ast.unparse(x) for x in pr.elts} == {ast.unparse(A), ast.unparse(B)}
                 else:
                     # the resolved pair itself
-                    par = P_(pr) == f"_seriesconns(m, {p}.conns)" and res(A) == RES[0][1] and res(B) == RES[1][1]
+                    par = P_(pr) == f"_seriesconns({M}, {p}.conns)" and res(A) == RES[0][1] and res(B) == RES[1][1]
             elif len(ifs) in (1, 2):
                 txt = {ast.unparse(c) for c in (ifs[0].values if len(ifs) == 1 and isinstance(ifs[0], ast.BoolOp) and isinstance(ifs[0].op, ast.And) else ifs)}
                 par = txt == {f"{tv} is not {ast.unparse(A)}", f"{tv} is not {ast.unparse(B)}"}
@@ -122,7 +127,7 @@ def check(repo: Repo, R) -> None:
             f"the parallel ports are the module ports that are not one of the two resolved series ports (identity test against the resolved pair: {par}), each wired to the unit port of its own name ({byname})",
             why="with series ports given as Signals a test by name against params.conns never matches: the series ports are wired in parallel too; or parallel ports are left open / crossed")
     ports = [n for n in au.walk_no_nested(fs.node) if isinstance(n, ast.For) and ast.unparse(n.iter) == f"io({p}.unit).values()"]
-    ok = len(ports) == 1 and bool(pat.find(f"m.add(deepcopy({ast.unparse(ports[0].target)}))", ports[0]))
+    ok = len(ports) == 1 and bool(pat.find(f"{M}.add(deepcopy({ast.unparse(ports[0].target)}))", ports[0]))
     R.check(ok, rule, key_of(fs, "ports-cloned"), fs.site, f"the generated module has a copy of each unit port — signal and bundle valued (io(unit)): {ok}", why="module ports differ from the unit's: bundle-valued ports of the unit are neither exposed nor wired")
     arr_after = bool(arr) and bool(writes) and all(shared.precedes(fs.node, w[3], arr[0][0]) for w in writes)
     R.check(arr_after, rule, key_of(fs, "order"), fs.site, f"the array is connected after the connection dict is complete: {arr_after}", why="the array is connected before (or without) the series concatenations")
